@@ -237,8 +237,11 @@ def round_claims(ctx, smc, r, pop, prev, force, qr, n, bounded):
                 # the mixture density underflowed in doubles at this replay point: outside the (exact real) claim
                 ctx.claim('pop%d_weight%d_is_prior_over_mixture' % (r, i), True)
                 continue
-            ctx.claim('pop%d_weight%d_is_prior_over_mixture' % (r, i),
-                      close(pop.weights[i], math.exp(lp - math.log(q)), 1e-6))
+            try:
+                ref = math.exp(lp - math.log(q))
+            except OverflowError:
+                ref = INF                 # overflow in doubles at this replay point (numpy gives inf as well)
+            ctx.claim('pop%d_weight%d_is_prior_over_mixture' % (r, i), close(pop.weights[i], ref, 1e-6))
 
 
 def h_smc_continue(ctx, bs, n, mode, K, max_trials=2, bounded=False):
